@@ -14,6 +14,8 @@ EX.DF             df(): columns = session mnemonics, first curve as index; set_d
 """
 import ast
 
+from sa.astutil import ordn
+
 from sa import AnalysisError
 from sa.astutil import unparse, enclosing, in_block, protecting_try
 from sa.cfg import build_cfg, EXC, is_catch_all
@@ -488,7 +490,7 @@ def rule_depth(ctx):
         elif not x.orelse:
             # guard-clause form: the result is None unless the single-match branch overwrites it
             pre = [a for a in walk_shallow(fr.node) if isinstance(a, ast.Assign) and any(is_result(t) for t in a.targets)
-                   and a.lineno < x.lineno and isinstance(a.value, ast.Constant) and a.value.value is None]
+                   and ordn(a) < ordn(x) and isinstance(a.value, ast.Constant) and a.value.value is None]
             ok = bool(pre)
     ctx.check(ok, "EX.DEPTH-TABLE", LF + ".read#conflict", fr, loop, "one match defines the unit, none or several leave it undefined",
               "the index unit is no longer left undefined when STRT/STOP/STEP and the first curve conflict")
